@@ -41,8 +41,8 @@ impl PropCase for Enc {
                 }
             );
         }
-        // iterator encoder: by value, by reference and over a source that is not fused
-        for mode in 0..3u8 {
+        // iterator encoder: by value, by reference, over a source that is not fused, over a source with a loose size hint
+        for mode in 0..4u8 {
             let es = run_encode_streaming(p, mode, if mode == 0 { 400 } else { 16 });
             ensure!(
                 !es.hit_bound && es.bytes == want,
